@@ -14,10 +14,12 @@ def verdictOf (s : String) : Option Verdict :=
   | k :: rest =>
     match (String.ofList rest).toNat? with
     | some n =>
-      if k == 'c' then some ⟨true, n, false, false⟩
-      else if k == 'x' then some ⟨true, n, false, true⟩
-      else if k == 'f' then some ⟨false, n, false, false⟩
-      else if k == 'n' then some ⟨false, n, true, false⟩
+      if k == 'c' then some ⟨true, n, false, false, false⟩
+      else if k == 'x' then some ⟨true, n, false, true, false⟩
+      else if k == 'f' then some ⟨false, n, false, false, false⟩
+      else if k == 'n' then some ⟨false, n, true, false, false⟩
+      else if k == 'e' then some ⟨true, n, false, false, true⟩
+      else if k == 'g' then some ⟨false, n, false, false, true⟩
       else none
     | none => none
   | [] => none
@@ -33,7 +35,7 @@ def segOf (s : String) : Option (Float × List Verdict) :=
 def showSt (c : Cfg Float) (s : St Float) (used : Nat) : String :=
   " ".intercalate [toString used, hexOfFloat s.t, hexOfFloat s.h, hexOfFloat s.deltat, hexOfFloat s.dmin,
     hexOfFloat s.dmax, toString s.idx, toString s.niter, bit s.converged, bit s.busted, bit s.fixt,
-    bit (succeed c s), toString s.kcount, bit (guard c s)]
+    bit (succeed c s), toString s.kcount, bit (guard c s), toString s.connChecks, bit s.customPending]
 
 /-- run the segments one after the other; the first starts from `init`, the others from `resume` -/
 def runSegs (c : Cfg Float) (fixt : Bool) : List (Float × List Verdict) → Option (St Float) → List String → St Float × List String
@@ -49,7 +51,7 @@ def runSegs (c : Cfg Float) (fixt : Bool) : List (Float × List Verdict) → Opt
 
 def handleTds (args : List String) : String :=
   match args with
-  | [t0, tstep, shrinkt, fixt, freqRaw, sysFreq, sw, segs] =>
+  | [t0, tstep, shrinkt, fixt, freqRaw, sysFreq, sw, segs, cc] =>
     let r : Option String := do
       let t0 ← floatOfHex t0
       let tstep ← floatOfHex tstep
@@ -59,10 +61,11 @@ def handleTds (args : List String) : String :=
       let sysFreq ← floatOfHex sysFreq
       let sw ← floatsOfHex sw
       let segs ← (segs.splitOn ";").mapM segOf
+      let cc ← boolOf cc
       let c : Cfg Float := { t0 := t0, tf := 0.0, tstep := tstep, shrinkt := shrinkt, freqRaw := freqRaw,
-                             sysFreq := sysFreq, sw := sw }
+                             sysFreq := sysFreq, sw := sw, checkConn := cc }
       let (s, outs) := runSegs c fixt segs none []
-      pure (" | ".intercalate (outs ++ [hexOfFloats s.stamps.reverse, natsToString s.fired.reverse]))
+      pure (" | ".intercalate (outs ++ [hexOfFloats s.stamps.reverse, natsToString s.fired.reverse, hexOfFloats s.customs.reverse]))
     r.getD "bad-op"
   | _ => "bad-op"
 
